@@ -19,7 +19,7 @@ ASSUMPTIONS = ['receiver package lists every chemical of the inlets (stated prec
                'flows are finite and non-negative', 'energy_balance=True only drawn for l/g inlets at 280-400 K',
                'Stream.sum / a+b create the result on the current settings thermo, which the check sets to the receiver package']
 REQUIRED_CELLS = {'quick': ['mix:recv=S', 'mix:recv=M', 'mix:multi', 'mix:xpkg', 'mix:self', 'mix:n=0', 'mix:n=1',
-                            'mix:n>=2', 'mix:repeated-inlet', 'mix:receiver-repeated', 'split:scalar', 'split:array', 'split:xpkg', 'split:src=M', 'split:outlets-reused'],
+                            'mix:n>=2', 'mix:repeated-inlet', 'mix:receiver-repeated', 'split:scalar', 'split:array', 'split:xpkg', 'split:src=M', 'split:outlets-reused', 'mix:view-inlet', 'mix:view-of-receiver'],
                   'thorough': []}
 
 TOL = 1e-12
@@ -110,6 +110,20 @@ def prop_mix(ch, ctx):
         recv = vs.build(rspec)
     else:
         recv = None
+    # Phase views (ms['l']) of a multi-phase inlet or of the receiver listed as further inlets: they share their
+    # parent's flow data, so a receiver that is emptied or rewritten before it is read changes them under the sum.
+    nview = 0; recv_views = []
+    if op == 'mix_from' and ch.choice('views', [0, 0, 0, 1, 1, 2]):
+        parents = [s for s in (inlets + ([recv] if recv is not None else [])) if isinstance(s, tmo.MultiStream)]
+        parents = list({id(s): s for s in parents}.values())
+        if parents:
+            for j in range(1 + ch.int('views.extra', 0, 1)):
+                par = parents[ch.index(f'view{j}.parent', len(parents))]
+                ph = ch.choice(f'view{j}.phase', list(par.phases))
+                v = par[ph]
+                inlets.insert(ch.int(f'view{j}.pos', 0, len(inlets)), v)
+                nview += 1
+                if par is recv: recv_views.append(v)
     before = [vs.by_phase(s) for s in inlets]
     want = vs.add_totals(*[vs.totals(s) for s in inlets]) if inlets else {}
     nonempty = sum(1 for s in inlets if vs.dense(s).any())
@@ -118,6 +132,10 @@ def prop_mix(ch, ctx):
     sum_cls_S = ch.bool('sum.cls.S') if op == 'sum' else True
     rkind = (specs[self_idx]['kind'] if self_idx >= 0 else (rspec['kind'] if rspec else ('S' if sum_cls_S else 'M')))
     region = f'recv={rkind},multi={int(multi)},xpkg={int(xpkg)},self={int(self_idx >= 0)},eb={int(eb)}'
+    if nview:
+        region += f',view={"recv" if recv_views else "inlet"}'
+        ctx.cell('mix:view-inlet')
+        if recv_views: ctx.cell('mix:view-of-receiver')
     ctx.cell(f'mix:recv={rkind}'); ctx.cell('mix:n=0' if n == 0 else 'mix:n=1' if n == 1 else 'mix:n>=2')
     if multi: ctx.cell('mix:multi')
     if xpkg: ctx.cell('mix:xpkg')
@@ -141,12 +159,12 @@ def prop_mix(ch, ctx):
     check_totals(ctx, got, want, site, region, scale)
     check_nonneg(ctx, result, site, region)
     for k, (s, b) in enumerate(zip(inlets, before)):
-        if s is result: continue
+        if s is result or any(s is v for v in recv_views): continue
         if vs.by_phase(s) != b:
             ctx.fail(f'{site}|{region}|inlet-modified', f'inlet {k} changed by mixing')
     if nonempty >= 2 or self_idx >= 0 or (nonempty and (multi or xpkg)):
         ctx.nontriv(['mix', op, eb, conserve, self_idx, dup_of, [skey(s) for s in specs],
-                     skey(rspec) if rspec else None])
+                     skey(rspec) if rspec else None, nview, len(recv_views)])
 
 
 # ---------------------------------------------------------------------------
@@ -383,9 +401,16 @@ def prop_scale(ch, ctx):
     k = ch.choice('k.special', [0.0, 1.0, 2.0, 0.5, None])
     if k is None or (k == 0.0 and op in ('div', 'idiv')):
         k = ch.logfloat('k', -3, 3)
+    # k as the scalar types arithmetic on flow arrays produces (a NumPy scalar on the left must defer to the stream)
+    ktype = ch.choice('k.type', ['float', 'float', 'int', 'np.float64', 'np.float32', 'np.int64'])
+    if ktype in ('int', 'np.int64'):
+        if k != int(k) or (k == 0 and op in ('div', 'idiv')): ktype = 'float' if ktype == 'int' else 'np.float64'
+    if ktype == 'np.float32': k = float(np.float32(k))
+    kk = {'float': float, 'int': int, 'np.float64': np.float64, 'np.float32': np.float32, 'np.int64': np.int64}[ktype](k)
     s = vs.build(sp)
     a0 = vs.dense(s).copy()
-    region = f'kind={vs.kind_tag(sp)},op={op}'
+    region = f'kind={vs.kind_tag(sp)},op={op}' + (',k=np' if ktype.startswith('np') else '')
+    if ktype.startswith('np'): ctx.cell('scale:numpy-scalar' + ('-left' if op == 'rmul' else ''))
     preview = ch.bool('mass.view.before')   # a mass view handed out earlier must show the scaled flows too
     if preview:
         _ = s.imass.data.to_array(); _ = s.mass
@@ -395,12 +420,12 @@ def prop_scale(ch, ctx):
         if k == 0: k = 0.25
     def f():
         nonlocal s
-        if op == 'scale': s.scale(k); return s
-        if op == 'mul': return s * k
-        if op == 'rmul': return k * s
-        if op == 'div': return s / k
-        if op == 'imul': s *= k; return s
-        if op == 'idiv': s /= k; return s
+        if op == 'scale': s.scale(kk); return s
+        if op == 'mul': return s * kk
+        if op == 'rmul': return kk * s
+        if op == 'div': return s / kk
+        if op == 'imul': s *= kk; return s
+        if op == 'idiv': s /= kk; return s
         if op == 'F_mol': s.F_mol = k * s.F_mol; return s
         if op == 'F_mass': s.F_mass = k * s.F_mass; return s
     r = ctx.call('scale.' + op, f, region=region)
